@@ -146,21 +146,27 @@ def run(ctx):
     # encode under faults
     for plan in ([("Q", 3)], [("L", 5)], [("S", 0)], [("L", 0), ("Q", 11), ("S", 0), ("L", 12)], [("S", 0)] * 4, [("Q", 0)] * 5, [("L", 1)] * 5):
         encode_case("encode", plan)
-    # an unsent reply and NO retry (raw client through the proxy): the credential must remain decodable
-    for _ in range(5 if ctx.thorough else 3):
+    # replies to a SUCCESSFUL decode that cannot be delivered, after which the client never reaches munged again
+    # (raw clients through the proxy, so that the sequence stops where we want): the credential must remain decodable.
+    #   [S]      first attempt processed, send fails
+    #   [Q, S]   first attempt never arrives; the retry (retry=1) is processed, its send fails
+    #   [L, S]   first attempt processed and answered (reply lost on the way); the retry is accepted as a retry,
+    #            its send fails -> munged gives the record back
+    for seq in ([["S"], ["Q", "S"], ["L", "S"]] * (2 if ctx.thorough else 1)):
         cred = fresh_cred()
-        px.set_plan([("S", 0)])
-        r, st = rig.decode(px.listen_path, cred)        # gets nothing
-        cr.o.ask("DECF %s 0 0 %d - S,S,S,S,S" % (cred.hex(), cr.now))   # model: five failed sends, every one rolled back
+        px.set_plan([(x, 0 if x == "S" else 9) for x in seq])
+        for i, x in enumerate(seq):
+            rig.decode(px.listen_path, cred, retry=i)        # the client gets nothing usable
+        cr.o.ask("DECF %s 0 0 %d - %s" % (cred.hex(), cr.now, ",".join(seq + ["S"] * (5 - len(seq)))))
         time.sleep(0.05)
         d, m, diff = cr.decode_both(cred)
-        ctx.count(("unsent", cred[:20]))
+        ctx.count(("unsent", tuple(seq)))
         dist["unsent-no-retry"] = dist.get("unsent-no-retry", 0) + 1
         if diff:
             mism.append({"op": "unsent", "diff": diff})
         if d is None or d["error_num"] != 0:
-            fails.append({"why": "the reply to a successful decode could not be delivered and the client never retried, yet the credential "
-                                 "is now reported as %s" % (d and (d["error_num"], d["error_str"])), "op": "unsent"})
+            fails.append({"why": "attempts %s: the reply to a successful decode could not be delivered and the client never came back, yet "
+                                 "the credential is now reported as %s" % (seq, d and (d["error_num"], d["error_str"]),), "op": "unsent", "seq": seq})
     p.stdin.close()
     p.wait()
     px.close()
